@@ -18,7 +18,7 @@ pub fn def() -> CheckDef {
         rule: "case = 2..5 interleaved processes of 1..3 generated models (each with 0..2 registered start events) that end by completion, error, abort or skip (decided by the scripted client) x keep_processes on/off x store backend x an acknowledging channel (so that message records exist) x late adversary actions after a process has ended x seeded answer order and schedule, and finally the removal of one model. After every terminal event and the following quiescence the exact row sets are compared: default configuration - no process row and no task row of that pid is left and every further action on it is refused; keep_processes - all rows remain, the process row is terminal and (for non-error endings) every task row is terminal; rows of other pids and all message records are untouched by the removal; removing a model deletes exactly the events whose mid is that model and exactly that model row. non-trivial = at least two processes ended in different ways while another one was still running; distinct = distinct (scenario hash, schedule hash)",
         level: "exploration",
         assumptions: &["rows are read from the backing collections at quiescent points", "monotone simulated clock", "no storage errors are injected"],
-        probes: &["probe.ended_completed", "probe.ended_error", "probe.ended_aborted", "probe.keep_processes", "probe.default_retention", "probe.sqlite", "probe.late_action", "probe.model_with_events_removed", "probe.other_process_running_at_removal"],
+        probes: &["probe.ended_completed", "probe.ended_error", "probe.ended_aborted", "probe.keep_processes", "probe.default_retention", "probe.sqlite", "probe.late_action", "probe.model_with_events_removed", "probe.other_process_running_at_removal", "probe.lifecycle_hook", "probe.cache_below_processes"],
         quick_cases: 3000,
         no_shrink: &[],
     }
@@ -52,6 +52,11 @@ fn gen_scenario(rng: &mut vsim::rng::Rng) -> Scenario {
         }
         let nev = rng.below(3);
         m.on = (0..nev).map(|i| format!("ev{}", i + 1)).collect();
+        // a workflow-level lifecycle hook: its act is started (and saved) when the process is already ending
+        if rng.below(3) == 0 {
+            let on = rng.pick(&["completed", "completed", "created"]).to_string();
+            m.setup.push(MAct { id: format!("hk{}", mi + 1), key: format!("{}hook", p), kind: ActKind::Msg, on: Some(on), ..Default::default() });
+        }
         sc.models.push(m);
     }
     sc.client.reactions = reactions;
@@ -66,6 +71,10 @@ fn gen_scenario(rng: &mut vsim::rng::Rng) -> Scenario {
     sc.client.ack = "now".into();
     sc.engine.keep_processes = rng.below(2) == 0;
     sc.engine.store = if rng.below(3) == 0 { "sqlite".into() } else { "mem".into() };
+    // a cache smaller than the number of processes: a process may reach its end while it is not held by the cache
+    if rng.below(3) == 0 {
+        sc.engine.cache_cap = 1 + rng.below(2) as i64;
+    }
     sc.client.mode = "sequential".into();
     sc.client.order = "random".into();
     sc.adversary = Some(AdversarySpec { permille: 200, max_actions: 8, actions: SEVEN.iter().map(|s| s.to_string()).collect() });
@@ -104,6 +113,12 @@ pub fn case(ctx: &mut CaseCtx) -> CaseOut {
     if discard_if_broken(&rec, &mut out) || rec.step_cap_hit {
         out.discarded.get_or_insert("step cap".into());
         return out;
+    }
+    if sc.models.iter().any(|m| !m.setup.is_empty()) {
+        ctx.count("probe.lifecycle_hook", 1);
+    }
+    if (sc.engine.cache_cap as usize) < sc.starts.len() {
+        ctx.count("probe.cache_below_processes", 1);
     }
     let keep = sc.engine.keep_processes;
     ctx.count(if keep { "probe.keep_processes" } else { "probe.default_retention" }, 1);
